@@ -14,7 +14,7 @@ import types
 import z3
 
 from . import values as V
-from .values import (EngineSignal, Unsupported, SInt, SBool, SBytes, SBuf, SZeros, SOpaque, SStr, is_sym, contains_sym)
+from .values import (EngineSignal, Unsupported, SInt, SBool, SBytes, SBuf, SMBuf, SZeros, SOpaque, SStr, is_sym, contains_sym)
 from .explore import LoopBound
 
 
@@ -93,7 +93,7 @@ class Interp:
             return self.ctx.decide(v.e != 0)
         if isinstance(v, SBytes):
             return len(v.cells) > 0
-        if isinstance(v, (SBuf, SZeros)):
+        if isinstance(v, (SBuf, SZeros, SMBuf)):
             n = self.ctx.resolve(v.n)
             if isinstance(n, SInt):
                 return self.ctx.decide(n.e != 0)
@@ -646,6 +646,21 @@ class Frame:
                 idx = self.I.ctx.concretize(idx)
             obj[idx] = v
             return
+        if isinstance(obj, SMBuf):
+            if isinstance(idx, (slice, _SymSlice)):
+                raise Unsupported("slice store into an array-backed buffer")
+            n = self.I.ctx.resolve(obj.n)
+            idx = self.I.ctx.resolve(idx)
+            if isinstance(idx, int) and idx < 0:
+                idx = V.arith("+", n, idx)
+            if not self.I.truth(V.band(V.compare(">=", idx, 0), V.compare("<", idx, n))):
+                raise IndexError("bytearray index out of range")
+            if isinstance(v, SInt):
+                self.byte_range(v)
+            elif not (isinstance(v, int) and 0 <= v <= 255):
+                raise ValueError("byte must be in range(0, 256)")
+            obj.arr = z3.Store(obj.arr, z3.simplify(V.to_intsort(idx)), z3.Extract(7, 0, V.to_bv(v)))
+            return
         if isinstance(obj, (SBuf, SZeros)):
             raise Unsupported("store into a symbolic-length buffer")
         if is_sym(idx) and isinstance(obj, (dict, list)):
@@ -868,7 +883,7 @@ class Frame:
         if isinstance(sl, ast.Slice):
             lo, hi, st = self.e_Slice(sl)
             lo, hi, st = (self.I.ctx.resolve(x) for x in (lo, hi, st))
-            if isinstance(obj, (SBuf, SZeros)):
+            if isinstance(obj, (SBuf, SZeros, SMBuf)):
                 if st is not None:
                     raise Unsupported("slice step on symbolic-length buffer")
                 return _SymSlice(lo, hi)
@@ -912,6 +927,11 @@ class Frame:
             if isinstance(idx, _SymSlice):
                 return self.buf_slice(obj, idx.lo, idx.hi)
             return self.buf_index(obj, idx)
+        if isinstance(obj, SMBuf):
+            view = SBuf(obj.arr, 0, obj.n)  # z3 arrays are values: the view is a snapshot, as a Python slice is a copy
+            if isinstance(idx, _SymSlice):
+                return self.buf_slice(view, idx.lo, idx.hi)
+            return self.buf_index(view, idx)
         if isinstance(obj, SZeros):
             if isinstance(idx, _SymSlice):
                 raise Unsupported("slice of symbolic zero buffer")
